@@ -13,6 +13,8 @@
   recvtemp   reformat + `a.b.c(args)` -> `_recv = a.b; _recv.c(args)`
   poskw      positional arguments of calls to repository functions, methods and constructors passed by keyword
   kwpos      keyword arguments of such calls passed by position where the order allows
+  constname  reformat + float literals inside comparisons hoisted to module-level constants
+  comploop   reformat + `x = [e for t in it]` -> empty list and a loop with append
   npalias    reformat + `import numpy as np` -> `import numpy as npx`, uses renamed
 
 usage: python3 tools/equivalents.py [variant ...] [--checks C01,C02,...] [--keep]
@@ -239,8 +241,86 @@ def recv_temp(tree):
     return ast.fix_missing_locations(tree)
 
 
+def const_name(tree):
+    """float literals inside comparisons hoisted to module-level constants (`abs(x) < 1e-5` -> `abs(x) < _TOL_3`)"""
+    consts = []
+
+    class T(ast.NodeTransformer):
+        def __init__(self):
+            self.in_fn = 0
+
+        def visit_FunctionDef(self, fn):
+            self.in_fn += 1
+            self.generic_visit(fn)
+            self.in_fn -= 1
+            return fn
+
+        def visit_Compare(self, n):
+            self.generic_visit(n)
+            if not self.in_fn:
+                return n
+            for i, c in enumerate([n.left] + n.comparators):
+                if isinstance(c, ast.Constant) and isinstance(c.value, float):
+                    nm = f"_TOL_{len(consts)}"
+                    consts.append((nm, c.value))
+                    new = ast.Name(nm, ast.Load())
+                    if i == 0:
+                        n.left = new
+                    else:
+                        n.comparators[i - 1] = new
+            return n
+
+    tree = T().visit(tree)
+    if consts:
+        k = 0
+        while k < len(tree.body) and (isinstance(tree.body[k], (ast.Import, ast.ImportFrom)) or (
+                isinstance(tree.body[k], ast.Expr) and isinstance(tree.body[k].value, ast.Constant))):
+            k += 1
+        tree.body[k:k] = [ast.Assign(targets=[ast.Name(nm, ast.Store())], value=ast.Constant(v), lineno=1) for nm, v in consts]
+    return ast.fix_missing_locations(tree)
+
+
+def comp_loop(tree):
+    """`x = [e for t in it if c]` -> `x = []` + a for loop with append (functions without nested scopes; the loop variables are
+    used nowhere else in the function and `x` does not occur in the comprehension)"""
+    for fn in ast.walk(tree):
+        if not isinstance(fn, (ast.FunctionDef, ast.AsyncFunctionDef)):
+            continue
+        if any(n is not fn and isinstance(n, (ast.FunctionDef, ast.AsyncFunctionDef, ast.Lambda, ast.ClassDef, ast.Global, ast.Nonlocal)) for n in ast.walk(fn)):
+            continue
+        for holder in ast.walk(fn):
+            for field in ("body", "orelse", "finalbody"):
+                body = getattr(holder, field, None)
+                if not isinstance(body, list) or not body or not isinstance(body[0], ast.stmt):
+                    continue
+                out = []
+                for st in body:
+                    ok = isinstance(st, ast.Assign) and len(st.targets) == 1 and isinstance(st.targets[0], ast.Name) and isinstance(st.value, ast.ListComp) \
+                        and len(st.value.generators) == 1 and not st.value.generators[0].is_async \
+                        and not any(isinstance(x, (ast.ListComp, ast.SetComp, ast.DictComp, ast.GeneratorExp)) for x in ast.walk(st.value) if x is not st.value)
+                    if ok:
+                        g = st.value.generators[0]
+                        tnames = {x.id for x in ast.walk(g.target) if isinstance(x, ast.Name)}
+                        inside = {id(x) for x in ast.walk(st.value)}
+                        elsewhere = {x.id for x in ast.walk(fn) if isinstance(x, ast.Name) and id(x) not in inside} | {a.arg for a in ast.walk(fn) if isinstance(a, ast.arg)}
+                        x = st.targets[0].id
+                        if tnames & elsewhere or x in {y.id for y in ast.walk(st.value) if isinstance(y, ast.Name)}:
+                            ok = False
+                    if not ok:
+                        out.append(st)
+                        continue
+                    app = ast.Expr(ast.Call(func=ast.Attribute(value=ast.Name(x, ast.Load()), attr="append", ctx=ast.Load()), args=[st.value.elt], keywords=[]))
+                    inner = [app]
+                    for c in reversed(g.ifs):
+                        inner = [ast.If(test=c, body=inner, orelse=[])]
+                    out.append(ast.Assign(targets=[ast.Name(x, ast.Store())], value=ast.List(elts=[], ctx=ast.Load()), lineno=st.lineno))
+                    out.append(ast.For(target=g.target, iter=g.iter, body=inner, orelse=[], lineno=st.lineno))
+                setattr(holder, field, out)
+    return ast.fix_missing_locations(tree)
+
+
 VARIANTS = {"reformat": lambda t: t, "rename": rename_locals, "rettemp": return_temp, "ifelse": if_else, "condtemp": cond_temp, "negif": negated_if,
-            "mulswap": mul_swap, "cmpflip": cmp_flip, "kwswap": kw_swap, "ifexp": if_exp, "npalias": np_alias, "recvtemp": recv_temp, "poskw": None, "kwpos": None}
+            "mulswap": mul_swap, "cmpflip": cmp_flip, "kwswap": kw_swap, "ifexp": if_exp, "npalias": np_alias, "recvtemp": recv_temp, "poskw": None, "kwpos": None, "constname": const_name, "comploop": comp_loop}
 
 
 def build_resolved(variant, work):
